@@ -15,7 +15,7 @@ from ..drivers import Cfg
 PROPERTY = "C11"
 LEVEL = "model_checking"
 MODULE = __name__
-CLAUSES = ("priv", "reply")
+CLAUSES = ("priv", "pad", "reply")
 
 work = histcheck.make_work(CLAUSES)
 
